@@ -9,7 +9,8 @@ EXPLANATION = ("Narrow claim, necessary conditions only: R18.1 every OpenOptions
                "path of the file currently written to (updated by every rotation); R18.2 the writer is replaced by assignment only after a successful "
                "open (the replaced writer is dropped, hence flushed into the old inode), under the state lock by construction; R18.3 reset validates "
                "the write mode and builds the new state before replacing the old one; R18.4 reopen_output / trigger_rotation fan out to the file "
-               "writer and every additional writer, keeping the first error. R18.4 also: the additional writers are iterated for every kind of primary writer.")
+               "writer and every additional writer, keeping the first error. R18.4 also: the additional writers are iterated for every kind of primary writer."
+               " R18.1 also (shared with R06.1): the path stored for re-opening is exactly the path that was opened. R18.3 also (shared with R08.5): reset opens nothing and reads no file length before the old state is replaced (dropped, flushed).")
 ASSUMPTIONS = ["inode semantics of external rename/remove (OS)", "BufWriter flushes on drop"]
 NOT_DECIDED = ["inode semantics of external rename/remove", "content of old vs new family", "async mode (outside the property)"]
 FLOORS = {'R18.1': 1, 'R18.3': 1, 'R18.4': 2}
